@@ -621,10 +621,46 @@ class Exec:
                 self.raise_(p, "NameError", PyC("local variable '%s' referenced before assignment" % e.id), e.lineno)
                 return []
             return [(self.name(e, p), p)]
+        if isinstance(e, ast.NamedExpr):
+            # (n := value): binds the local and is the value
+            res = []
+            for v, p2 in self.ev(e.value, p):
+                q = p2.copy()
+                for q2 in self.assign(e.target, v, q):
+                    res.append((v, q2))
+            return res
         if isinstance(e, (ast.Tuple, ast.List)):
             kind = "tuple" if isinstance(e, ast.Tuple) else "list"
             if any(isinstance(x, ast.Starred) for x in e.elts):
-                raise Unsupported("starred display", e)
+                # [*xs] is list(xs), (*xs,) is tuple(xs); with further items the pieces are concatenated in order
+                from . import lib as _lib
+                res = []
+                for vs, p2 in self.evlist([x.value if isinstance(x, ast.Starred) else x for x in e.elts], p):
+                    acc, run = None, []
+
+                    def flush(acc, run):
+                        if not run:
+                            return acc
+                        piece = Tup(list(run), "list")
+                        return piece if acc is None else app("list_cat", asV(acc), asV(piece))
+                    for x, v in zip(e.elts, vs):
+                        if isinstance(x, ast.Starred):
+                            acc = flush(acc, run)
+                            run = []
+                            piece = _lib.FUNCS["list"][0](self, e, [v], {}, p2)[0][0]
+                            if acc is None:
+                                acc = piece
+                            elif isinstance(acc, Tup) and isinstance(piece, Tup):
+                                acc = Tup(acc.items + piece.items, "list")
+                            else:
+                                acc = app("list_cat", asV(acc), asV(piece))
+                        else:
+                            run.append(v)
+                    acc = flush(acc, run)
+                    if kind == "tuple":
+                        acc = Tup(acc.items, "tuple") if isinstance(acc, Tup) else app("tuple_of", asV(acc))
+                    res.append((acc, p2))
+                return res
             return [(Tup(vs, kind), p2) for vs, p2 in self.evlist(e.elts, p)]
         if isinstance(e, ast.Set):
             res = []
@@ -733,6 +769,13 @@ class Exec:
             fdef, _ = self.ctx.extract(self.ctx.cur_module, n)
             if isinstance(fdef, ast.FunctionDef) and not fdef.decorator_list:
                 return Closure(fdef, None)
+        if self.side != "spec" and self.ctx.cur_module:
+            # a module-level constant: bound once, at module level, to an immutable display of literals / classes (hoisted tuples of types, strings)
+            cexpr = self.ctx.module_const(self.ctx.cur_module, n)
+            if cexpr is not None:
+                vals = self.ev(cexpr, St())
+                if len(vals) == 1:
+                    return vals[0][0]
         raise Unsupported("unknown name %s" % n, e)
 
     def boolop(self, e, p):
